@@ -9,8 +9,9 @@ from vlib import ramses_select as rs
 from vlib.harness import Sub
 
 PROPERTY = "C12"
-RULE = ("generated outputs (as C01, >=2 refined levels, with or without part/sink groups) x level predicates l<=k, l<k, "
-        "l==k, a<l<b, l>=a (accepting at least one level), alone or ANDed with a value predicate and/or a position "
+RULE = ("generated outputs (as C01, >=2 refined levels, with or without part/sink groups; a quarter of the 3-D ones with "
+        "16-24 CPUs and levelmin 3) x level predicates l<=k, l<k, l==k, a<l<b, l>=a, l!=k, l in {..} (boolean or 0/1 "
+        "masks, accepting at least one level), alone or ANDed with a value predicate and/or a position "
         "interval.  Oracle from the model: L = highest accepted level; truncated tree = leaves of level < L plus all "
         "cells of level L (refined or not, with their stored restriction values); expected rows = those satisfying all "
         "predicates, compared as row multisets with all columns; meta lmax == L; when the predicate accepts every "
@@ -28,9 +29,14 @@ def prepare(ctx):
 
 @st.composite
 def case_st(draw):
-    case = draw(rc.output_cases(min_levels=1, max_cpu=6))
+    case = draw(rc.output_cases(min_levels=1, max_cpu=9))
     case["max_cells"] = 1500
     case["use_minus1"] = False
+    if case["ndim"] == 3 and draw(st.integers(0, 3)) == 0:
+        # many small domains and levelmin 3: a cap below levelmin meets the CPU pre-selection
+        case.update(ncpu=draw(st.sampled_from([16, 24])), levelmin=3, levelmax=draw(st.integers(4, 5)), refine_p=[0.03],
+                    ordering="hilbert", key_mode=draw(st.sampled_from(["uniform", "random"])), ghost_p=0.1, grav=False,
+                    rt_vars=[], nboundary=0, max_cells=3500)
     preds = []
     for _ in range(draw(st.integers(2, 4))):
         p = {"level": draw(rs.level_preds(case["levelmax"]))}
@@ -38,7 +44,10 @@ def case_st(draw):
         if extra in ("val", "both"):
             p["val"] = draw(rs.value_preds([v for v in case["hydro_vars"] if not v.startswith("B_")]))
         if extra in ("pos", "both"):
-            p["pos"] = draw(rs.pos_preds(case["ndim"], case["levelmax"], around_leaf="abs"))
+            p["pos"] = draw(rs.pos_preds(case["ndim"], case["levelmax"]))
+            if p["pos"]["form"] == "leaf" and draw(st.booleans()):
+                p["pos"]["axes"] = "xyz"[: case["ndim"]]
+                p["pos"]["shift"] = (p["pos"]["shift"] + [0.1, -0.2, 0.3])[: case["ndim"]]
         preds.append(p)
     case["preds"] = preds
     return case
@@ -102,5 +111,5 @@ def level_limited(case, r):
 
 
 def subs(ctx):
-    return [Sub("level_limited", level_limited, strategy=case_st(), quick=60, thorough=350,
+    return [Sub("level_limited", level_limited, strategy=case_st(), quick=120, thorough=350,
                 required={"truncation_matters": 0.3, "tiling_case": 0.2})]
